@@ -4,6 +4,12 @@ _BASE_NOTE = ("Trusted: CrossHair's symbolic models of str/int/list and z3 (for 
               "bounds per condition as written to evidence (pre: lines). Nothing is claimed outside the bounds.")
 
 CLAIMS = {
+    "C19": {
+        "technique": "bounded symbolic execution (CrossHair/z3) of MaxDepthValidationRule on solver-chosen selection trees with a symbolic limit, against a reference depth",
+        "text": "Every document of the generator family (chains up to depth 3 wrapped in inline/named fragments at the top and below, @skip/@include on variables, merged same-key branches, two operations with name filter) "
+                "is decided: an error is reported exactly when reference depth > limit, never an exception; limit symbolic in [-1000, 1000] for the two-operation family and every value -1..4 for the single-operation family.",
+        "note": _BASE_NOTE + " Documents outside the generator family are not covered.",
+    },
     "C13": {
         "technique": "z3 regex-language equivalence for the live name pattern (unbounded); bounded symbolic execution (CrossHair/z3) of the real SchemaValidator on solver-chosen type shapes and labelled violations",
         "regex": True,
